@@ -141,7 +141,7 @@ CHECKS['C15'] = dict(
 CHECKS['C10'] = dict(
     level='exploration',
     steps=[dict(mode='asan', bin='c10_options')],
-    rule='16 configurations (faceOptions 0..7 x {table callbacks, gr_make_file_face}) per font; fonts: all shipped + S-full variants (compressed, no sub-boxes, no glyf/loca, more attribute glyphs than outlines, Silf v3/v4, RTL), S-min, 40-feature font; '
+    rule='16 configurations (faceOptions 0..7 x {table callbacks, gr_make_file_face}) per font; fonts: all shipped + S-full variants (compressed, no sub-boxes, no glyf/loca, more attribute glyphs than outlines, a glyph storing a value for every attribute number and one storing only the last, Silf v3/v4, RTL), S-min, 40-feature font; '
          'face dump (every gr_face_*/gr_fref_* query, labels, is_char_supported probes) and every segment dump (bitwise, positions included) for corpus lines/words (60 quick / all thorough) resp. all strings <=2 (thorough <=3) over 9 characters x dir {0,1,3} x {default, first language} '
          'must equal configuration (0, callbacks); with preloadAll no get_table call after load. distinct = distinct reference dumps',
     level_text='Exhaustive configuration product (all option bits x both table sources) crossed with bounded text sets on the real code, differential oracle against the default configuration.',
@@ -171,10 +171,11 @@ CHECKS['C08'] = dict(
     rule='roots = fonts {S-min, S-full, small.ttf} (thorough + Padauk) x faceOptions {0, preloadGlyphs, cacheCmap, preloadAll} x font {gr_make_font, advance-callback font}; '
          'operations on ONE face and ONE font: 32 gr_make_seg variants (4 texts x dir x features x font/NULL, up to 2 live segments), destroy, justify, linebreak, feature/value label, featureval_for_lang, is_char_supported, full face dump, second font create/destroy; '
          'two searches per root: BFS to depth 4 (thorough 6) deduplicated on the mutable-state key (set of loaded glyphs, set of loaded boxes, loader present, name table read, set of cached advances, live segments) and a plain enumeration without deduplication to depth 2 (thorough 3); '
-         'in EVERY visited state 72 probe segments (texts x dir {0,1,3} x features {default, language, modified} x {font, NULL}) and the face dump are compared with those of a fresh face. Each history is replayed on a fresh face',
+         'in EVERY visited state 72 probe segments (texts x dir {0,1,3} x features {default, language, modified} x {font, NULL}) and the face dump are compared with those of a fresh face. Each history is replayed on a fresh face. '
+         '(text_pair_histories) fonts {S-full, Awami_test, small.ttf} (thorough + Padauk, Charis, Scheherazade) x faceOptions {0, 6}: character set = base characters of the font, every pseudo-glyph character of its Silf tables, an unsupported character, and for each c also c+1, c+0x100, c+0x10000 (keys that collide under truncation / blocking); for EVERY ordered pair (c1, c2): one history step (shape [base,c1,base] in either direction, or gr_face_is_char_supported(c1)) on a fresh face, then one probe (shape [base,c2,base] x 2 directions, is_char_supported(c2)) compared with the probe on a fresh face',
     state_meaning='states = visited API-history states in which all probes were evaluated; transitions = API operations replayed',
     level_text='Explicit-state search over API histories on real objects with a differential oracle (state reached through a history vs fresh object) in every state; key soundness is backed by an additional undeduplicated shallow enumeration.',
-    level_note='Trusted: the key enumerates the mutable face/font state (read through private headers); canonical dumps. Bounded depth; at most two live segments.',
+    level_note='Trusted: the key enumerates the mutable face/font state (read through private headers); canonical dumps. Bounded depth; at most two live segments. State not in the key (e.g. a newly introduced memo) is only reached through the undeduplicated enumeration and the exhaustive one-step text-pair histories.',
     technique='explicit-state search over API histories on the real code, differential oracle in every state',
     assumptions=[],
 )
@@ -248,7 +249,7 @@ CHECKS['C06'] = dict(
     steps=[dict(name='gdl_lite', py=stream_simple('gdl_lite', 'gdl_lite.py', 'c06_stream'), targets=[('asan', 'c06_stream')])],
     rule='GDL-lite programs (gen/gdl_lite.py) compiled to Silf/Glat/Gloc/cmap tables by the synthesiser: (single) every rule with pre-context 0..2 (uniform class), body length 1..3 (total <= 4 quick / 5 thorough) over 3 (thorough 5) overlapping input classes, '
          'at most two body items carrying one action from {put_glyph x|z, delete, insert z, user0=3, advance=777, put_subs([a b]->[x y])}, optional constraint (glyph attribute == v, feature == 1; thorough: on every item); (pair) ordered pairs from a 64-rule core that overlaps on many strings '
-         '(precedence by sort key, by rule order, by constraint; mixed pre-context lengths in one pass); (twopass) substitution pass then positioning pass (shift, advance, user attribute, attachment of an inserted zero-advance mark); (attr_then_pair) a pass setting a user attribute / advance followed by a pass with two core rules (inserted slots must be fresh); (direction) RTL fonts and reverse-direction passes. '
+         '(precedence by sort key, by rule order, by constraint; mixed pre-context lengths in one pass); (twopass) substitution pass then positioning pass (shift, advance, user attribute, attachment of an inserted zero-advance mark); (attr_then_pair) a pass setting a user attribute / advance followed by a pass with two core rules (inserted slots must be fresh); (backup_chain) MaxRuleLoop M in 2..5 with k <= M-1 single-slot rules that substitute and resume at their own slot (no progress, the loop limit must not intervene), then a rule spanning 2-3 slots (resuming after it or inside it), then a rule that could match inside that output; (direction) RTL fonts and reverse-direction passes. '
          'Every program x every string of length 1..3 (thorough 1..4) over {a,b,c,d} + strings with an unmapped character x dir {0,1} (x feature 0/1 when tested): the reference interpreter (written from doc/GTF.adoc and doc/OpCodes.adoc: longest sort key first then earliest rule, constraint true, in-place stream, cursor after the rule, advance reset on glyph change, '
          'pen accumulation with shift and attachment offsets) must equal the engine on glyph ids, parent indices, advance/shift/user/attach attributes and, for LTR unreversed programs, design-unit origins and the segment advance',
     state_meaning='states = (program, string, direction, feature) evaluations; every one is a reference trace validated against the implementation',
